@@ -450,6 +450,21 @@ def totality_cases(ctx):
                     if b in G.NAMED and rng.random() < 0.3:
                         ps = G.NAMED[b]
                         add('bif-unicode', '%s(%s: "%s", %s: "%s")' % (b, ps[1], m, ps[0], text))
+    # times / date-times built with an offset DURATION of a day or more (accepted by time(h, m, s, offset)) in every operation that needs the
+    # instant, and sums of years-and-months durations at the ends of i64 printed / negated / compared (two panics found on the unchanged tree by
+    # an outsider: FixedOffset::east out of bounds, i64::abs overflow in Display; fixed in /repo 745797a, a5568f0)
+    offs = ['duration("P1D")', 'duration("-P1D")', 'duration("PT24H")', 'duration("PT23H59M59S")', 'duration("P2D")', 'duration("-PT36H")', 'duration("P999999D")', 'duration("PT0S")']
+    for o in offs:
+        t = 'time(10, 0, 0, %s)' % o
+        for e in ('%s = %s', '%s != time("10:00:00Z")', '%s < %s', '%s - time("09:00:00Z")', 'string(%s)', '(%s).time offset', '%s in [time("00:00:00Z")..time("23:59:59Z")]',
+                  '%s between time("00:00:00Z") and %s', 'date and time(date("2021-03-28"), %s) = date and time("2021-03-28T10:00:00Z")',
+                  'date and time(date("2021-03-28"), %s) - date and time("2021-03-28T10:00:00Z")', 'date and time(date("999999999-12-31"), %s) > date and time("2021-03-28T10:00:00Z")'):
+            add('offset-duration', e.replace('%s', t))
+    ends = ['duration("P768614336404564650Y7M")', 'duration("-P768614336404564650Y7M")', 'duration("P1M")', 'duration("-P1M")', 'duration("P768614336404564650Y")', 'duration("-P768614336404564650Y8M")']
+    for a in ends:
+        for b in ends:
+            for e in ('%s + %s', 'string(%s + %s)', '-(%s + %s)', 'abs(%s + %s)', '(%s + %s) = %s', '(%s + %s) < %s', '(%s + %s).years', '(%s + %s).months', '%s - %s', 'string(-(%s) + %s)'):
+                add('ym-ends', e.replace('%s', '\x00').replace('\x00', a, 1).replace('\x00', b, 1).replace('\x00', a))
     for op in G.BINOPS + ['between']:
         for _ in range(ctx.pick(60, 3000)):
             a, b, c = rng.choice(pool), rng.choice(pool), rng.choice(pool)
